@@ -84,6 +84,10 @@ type server struct {
 	peers    []*ssePeer
 	nextID   atomic.Int64
 	order    []string // explicit option order the server was built with (nil = the classic order)
+	// overlap phase: how long a legacy-SSE request waits for its answer on the stream (0 = 10 s), and a channel whose
+	// closing makes every waiting request give up at once (nil = never)
+	answerWait time.Duration
+	giveUp     chan struct{}
 }
 
 var notifMethods = []string{"notifications/initialized", "notifications/cancelled", "notifications/verif"}
@@ -479,12 +483,25 @@ func (s *server) send(body map[string]any, token string, which int, newSession b
 	if !isRequest {
 		return a
 	}
+	wait := 10 * time.Second
+	if s.answerWait > 0 {
+		wait = s.answerWait
+	}
 	select {
 	case m := <-ch:
 		a.msg = m
-	case <-time.After(10 * time.Second):
-		a.problem = "no answer on the SSE stream within 10s"
+	case <-time.After(wait):
+		a.problem = fmt.Sprintf("no answer on the SSE stream within %v", wait)
 		p.forget(key)
+	case <-s.giveUp:
+		// a last look: the answer may have arrived together with the signal
+		select {
+		case m := <-ch:
+			a.msg = m
+		default:
+			a.problem = "no answer on the SSE stream when the round's bound had passed"
+			p.forget(key)
+		}
 	}
 	return a
 }
